@@ -47,6 +47,7 @@ type Exec struct {
 	// model state used by intrinsics
 	locks    map[*Value]int
 	syncMaps map[*Value]*[]syncMapEntry
+	pools    map[*Value][]Value
 	pgRegistered map[*Value][]*Value
 	ctxCanceled Value
 	foot     *footprint
